@@ -24,7 +24,7 @@ pub const RULE: &str = "A worker generates a corpus from its seed: ~100 programs
 pub const ASSUMPTIONS: &[&str] = &[
     "the reference is the same tree's library run alone in a fresh process (the property is relational: same source, same result)",
     "caller threads are real OS threads, so thread_local!, LazyLock and std locks behave as in a user's program; only the choice of who runs is simulated",
-    "yield points: every intercepted libc call (getcwd, statx, open, read, close, ...) and the cfg-guarded hook sites in /repo (build entry, between passes, every parsed line, every pass-1/pass-2 item, macro expansion, .device)",
+    "yield points: every intercepted libc call (getcwd, statx, open, read, close, ...) and the 24 cfg-guarded hook sites in /repo (build entry, between passes, every parsed line, every pass-1/pass-2 item, macro expansion, .device, every symbol-table accessor - i.e. inside expression evaluation)",
     "a token holder that blocks on a foreign lock for 2 s of wall time loses the token to the lowest-numbered parked thread; wall time decides when this is noticed, never who runs",
     "the build hit by an injected fault is exempt (engine inctree judges it); every other build of the episode is judged",
     "corpus entries that panic or crash in isolation are excluded and counted (a C16 matter)",
@@ -823,6 +823,7 @@ pub fn worker(cfg: &WorkerCfg, emit: &mut dyn FnMut(Violation)) -> Stats {
         stats.probe("context_switch_between_passes", sw(3, 6));
         stats.probe("context_switch_inside_pass_1_or_2", sw(8, 9));
         stats.probe("context_switch_inside_macro_expansion", sw(12, 12));
+        stats.probe("context_switch_inside_expression_evaluation_or_symbol_access", sw(20, 31));
         stats.probe("context_switch_at_a_libc_call", sw(100, 200));
         let overlap = out.results.iter().any(|a| out.results.iter().any(|b| a.thread != b.thread && a.invoke < b.ret && b.invoke < a.ret && sc.entries.get(&a.entry).map(|e| &e.family) == sc.entries.get(&b.entry).map(|e| &e.family)));
         stats.probe("two_builds_of_one_family_overlapping_in_time", overlap);
